@@ -73,7 +73,7 @@ var properties = map[string]propSpec{
 	},
 	"C03": {
 		Bounds: [2]map[string]any{
-			{"rows": "0..3 (0..2 with two grouping columns / NULLs)", "cells": "any non-NaN float64, optional NULL values", "queries": "GROUP BY 1-2 columns with COUNT(*) COUNT(col) SUM MIN MAX AVG, WHERE, HAVING on COUNT/SUM/MIN, ORDER BY over groups; whole-table aggregates with/without WHERE; same function on two columns; NULL and missing cells in one- and two-column grouping keys; aggregates over the grouping column; mixed-case column names; LIMIT 0..3 OFFSET 0..2 over groups of 3..5 rows with keys from {0,1,2}", "map iteration": "every order at ExecGroupBy's map ranges"},
+			{"rows": "0..3 (0..2 with two grouping columns / NULLs)", "cells": "any non-NaN float64, optional NULL values", "queries": "GROUP BY 1-2 columns with COUNT(*) COUNT(col) SUM MIN MAX AVG, WHERE, HAVING on COUNT/SUM/MIN, ORDER BY over groups; whole-table aggregates with/without WHERE; same function on two columns; NULL and missing cells in one- and two-column grouping keys; aggregates over the grouping column; mixed-case column names; LIMIT 0..3 OFFSET 0..2 over groups of 3..5 rows with keys from {0,1,2}; grouping cells of mixed kinds (1, '1', TRUE, 'true', NULL, '<nil>', 2, '1.0') in every arrangement of 0..3 rows", "map iteration": "every order at ExecGroupBy's map ranges"},
 			{"rows": "0..4 (0..3)", "cells": "same", "queries": "same", "map iteration": "same"},
 		},
 		Outside: []string{"aggregates over strings", "NaN group keys", "SUM's ParseFloat(Sprintf(x)) round trip is an axiom (shortest-representation guarantee)"},
@@ -115,7 +115,7 @@ var properties = map[string]propSpec{
 	},
 	"C09": {
 		Bounds: [2]map[string]any{
-			{"indexes": "any int in [0,2^31) (as ReadIndex yields), range bounds any int in [-1,2^31)", "arrays": "length 0..3, ragged arrays of arrays (outer 0..2 × inner 0..2)", "selectors": "27 selector texts covering every documented form on a document with symbolic leaves and a symbolic-length array; 9 selector texts evaluated twice on independent documents and over ragged arrays (selector cache reuse)", "sequences": "every ordered pair of the 45 selector texts on one document (selector cache history)", "pipes": "{k|number} over every string ≤3 bytes of {0 1 8 9 . x -} against a decimal-syntax reference, {k|string} over the halves -3..4.5"},
+			{"indexes": "any int in [0,2^31) (as ReadIndex yields), range bounds any int in [-1,2^31)", "arrays": "length 0..3, ragged arrays of arrays (outer 0..2 × inner 0..2)", "selectors": "27 selector texts covering every documented form on a document with symbolic leaves and a symbolic-length array; 9 selector texts evaluated twice on independent documents and over ragged arrays (selector cache reuse)", "sequences": "every ordered pair of the selector texts (the same text twice included; 5 of them with a segment the parser rejects, first or after valid `::` segments) on one document (selector cache history)", "pipes": "{k|number} over every string ≤3 bytes of {0 1 8 9 . x -} against a decimal-syntax reference, {k|string} over the halves -3..4.5"},
 			{"indexes": "same", "arrays": "same", "selectors": "same", "pipes": "strings ≤4 bytes"},
 		},
 		Outside: []string{"arbitrary byte strings as selectors: tokenisation is three Go regexps, executed natively on concrete text only"},
@@ -170,7 +170,7 @@ var properties = map[string]propSpec{
 	},
 	"C17": {
 		Bounds: [2]map[string]any{
-			{"texts": "every byte string ≤5 over {\" ' ` [ ] a , blank 0xC3} (and over {\" ' \\ a `}) accepted by the tokenizer, for DoubleQuotesToBackTick; a double-quoted identifier after every prefix ≤3 bytes over {` \\ ' a blank}; ≤5 over {[ ] ' \" ` a , 1} for FixIdiomaticArray", "queries": "3 double-quoted queries, nested bracket arrays, Wrapped() vs {root: input} on 0..2 rows; every ordered pair of the 4 dialect option sets on one text"},
+			{"texts": "every byte string ≤5 over {\" ' ` [ ] a , blank 0xC3} (and over {\" ' \\ a `}) accepted by the tokenizer, for DoubleQuotesToBackTick; a double-quoted identifier after every prefix ≤3 bytes over {` \\ ' a blank} and ≤5 bytes over {- ' blank newline #} and {- ' tab CR newline}; ≤5 over {[ ] ' \" ` a , 1}, {[ ] - ' blank newline} and {[ ] - ' tab newline} for FixIdiomaticArray", "queries": "3 double-quoted queries, nested bracket arrays, Wrapped() vs {root: input} on 0..2 rows; every ordered pair of the 4 dialect option sets on one text"},
 			{"texts": "≤6 bytes", "queries": "same"},
 		},
 		Outside: []string{"identifier bodies containing backslashes or backticks (the two quoting styles decode them differently)", "the oracle is the library's own MySQL tokenizer, run natively on concretised text"},
@@ -184,7 +184,7 @@ var properties = map[string]propSpec{
 	},
 	"C19": {
 		Bounds: [2]map[string]any{
-			{"rows": "1..2 rows with one nested row", "repetition": "10 failing queries issued twice on equal inputs, then a healthy query", "type errors": "a wrong-shaped cell at every row position × 15 clause positions (ORDER BY keys, WHERE, select list, GROUP BY, HAVING, DISTINCT, join ON, IN subquery, aggregates, BETWEEN, CASE, UNION)", "fault positions": "18 templates placing a fault-injecting function in WHERE, select list, HAVING, join ON (hash and nested loop), CTE body, derived table, select-list subquery, IN subquery, EXISTS, both UNION branches, RAISE_WHEN, type errors, ORDER BY, GROUP BY", "k": "none, 1..4"},
+			{"rows": "1..2 rows with one nested row", "repetition": "10 failing queries issued twice on equal inputs, then a healthy query", "type errors": "a wrong-shaped cell at every row position × 15 clause positions (ORDER BY keys, WHERE, select list, GROUP BY, HAVING, DISTINCT, join ON, IN subquery, aggregates, BETWEEN, CASE, UNION)", "fault positions": "48 templates placing a fault-injecting function among the arguments of SPIN / ASYNC / SPINASYNC / ONCE calls, in WHERE, select list, HAVING, join ON (hash and nested loop), CTE body, derived table, select-list subquery, IN subquery, EXISTS, both UNION branches, RAISE_WHEN, type errors, ORDER BY, GROUP BY", "k": "none, 1..4"},
 			{"rows": "1..3", "fault positions": "same", "k": "same"},
 		},
 	},
